@@ -6,9 +6,10 @@ out = '/verif/seeded'
 PORTED = {'C04-b': 'ported_C04b_narrow_lock.diff', 'C13-a': 'ported_C13a_request_flag.diff', 'C14-b': 'ported_C14b_reserved_id_guard.diff'}
 # import round 2
 for pid in ['C02','C03','C04','C05','C06','C07','C08','C10','C11','C12','C13','C14','C15','C16','C17']:
+  for rnd in (2, 3):
     for ab in 'ab':
-        src = '/tmp/seed/%sr2/seed/%s' % (pid, ab)
-        sid = '%sr2-%s' % (pid, ab)
+        src = '/tmp/seed/%sr%d/seed/%s' % (pid, rnd, ab)
+        sid = '%sr%d-%s' % (pid, rnd, ab)
         if not os.path.exists(src + '/patch.diff'):
             continue
         d = os.path.join(out, sid)
@@ -17,12 +18,14 @@ for pid in ['C02','C03','C04','C05','C06','C07','C08','C10','C11','C12','C13','C
         shutil.copy(src + '/demo.rs', d + '/demo.rs')
         am = json.load(open(src + '/meta.json')) if os.path.exists(src + '/meta.json') else {}
         conf = {}
-        f = '/tmp/cs/results/%sr2-%s.json' % (pid, ab)
+        f = '/tmp/cs/results/%sr%d-%s.json' % (pid, rnd, ab)
         if os.path.exists(f):
             conf = json.load(open(f))
-        meta = {'id': sid, 'property': pid, 'round': 2, 'summary': am.get('summary', ''), 'needs_to_manifest': am.get('needs_to_manifest', ''),
+        elif os.path.exists(d + '/meta.json'):
+            conf = json.load(open(d + '/meta.json')).get('confirmed_by_me', {}).get('at_repo_head', {})
+        meta = {'id': sid, 'property': pid, 'round': rnd, 'summary': am.get('summary', ''), 'needs_to_manifest': am.get('needs_to_manifest', ''),
                 'demo_path': am.get('demo_path', 'tests/seed_demo_%s.rs' % ab),
-                'author': 'fresh sub-agent (round 2) given only the property text, the summaries of the round-1 changes to avoid, and a scratch worktree of /repo HEAD',
+                'author': 'fresh sub-agent (round %d) given only the property text, the summaries of the earlier rounds\' changes to avoid, and a scratch worktree of /repo HEAD' % rnd,
                 'confirmed_by_me': {'how': 'tools/confirm_seed.sh: scratch git worktree of /repo HEAD, demo on the clean tree (must pass), patch applied, cargo test --lib --test tests (76 must pass), demo again (must fail); worktree removed afterwards', 'at_repo_head': conf}}
         json.dump(meta, open(d + '/meta.json', 'w'), indent=1)
 summary = []
